@@ -8,7 +8,7 @@ ID = 'C15'
 TITLE = 'Concurrent callers of one synchronous client are serialised'
 QUICK_S = 45
 THOROUGH_S = 600
-RULE = ('2-4 caller tasks x 1-3 transactions on ONE shared real client (TCP, UDP, serial-rtu); the reference server answers '
+RULE = ('2-4 caller tasks x 1-3 transactions on ONE shared real client (TCP, UDP, serial-rtu), all callers on one unit or spread over the units of a gateway; the reference server answers '
         'every request correctly with per-request reply lengths and latencies and unique values; the scheduler may pre-empt a '
         'caller at every transport operation (connect, send, select/recv/read, sleep, lock acquire) and, in the thorough tier, '
         'at 1-3 selected line events inside transaction.py / client/sync.py / framers (PCT-style). Systematic part: for 2 '
@@ -26,11 +26,15 @@ KINDS = [('tcp', 'tcp'), ('tcp', 'tcp'), ('udp', 'tcp'), ('serial', 'rtu')]
 def build(rng, kind, framing, ncallers, nops, lat):
     gen = cc.OpGen(rng, framing, extended=rng.choice([0.0, 0.0, 0.25, 0.5]))
     callers = []
+    # one slave, or a gateway with several slaves behind it: callers then address different units
+    units = rng.choice([[1], [1], [1, 2], [1, 2, 17, 200]])
     for ci in range(ncallers):
         ops = []
+        cu = rng.choice(units)
         for oi in range(nops[ci]):
             op = gen.op(fn=rng.choice(['read_holding_registers', 'read_input_registers', 'read_coils', 'write_register',
-                                       'write_registers', 'read_holding_registers']), unit=1, exc_rate=0.0,
+                                       'write_registers', 'read_holding_registers']),
+                        unit=cu if rng.random() < 0.8 else rng.choice(units), exc_rate=0.0,
                         maxn=rng.choice([2, 10, 40]))
             op['script'] = [{'act': 'reply', 'delay': rng.choice(lat)}]
             ops.append(op)
